@@ -335,9 +335,14 @@ func (l *Loader) expandGlob(basePath, pattern string) ([]string, error) {
 	var matches []string
 	for _, m := range allMatches {
 		absM, _ := filepath.Abs(m)
-		if absM != absBasePath {
-			matches = append(matches, m)
+		if absM == absBasePath {
+			continue
 		}
+		// a pattern also matches directories ("2024/*"): they are not journals
+		if info, err := os.Stat(m); err == nil && info.IsDir() {
+			continue
+		}
+		matches = append(matches, m)
 	}
 
 	if len(matches) == 0 {
